@@ -196,6 +196,28 @@ static void build(vf::Plan &plan, const vf::Opts &o)
                [](uint64_t i) { return strf("unit %04X in context %u", (unsigned)(i % 65536), (unsigned)(i / 65536)); });
     add_both(plan, strf("utf32: A32^<=%u all routes", T ? 5u : 4u), ref::E32, A32, T ? 5 : 4, false, all);
     }
+    // Latin-1 sources: every byte value alone and next to 41 / 80 / FF, bare and behind a 16-byte prefix (sizes, terminator,
+    // fill-pattern independence and canaries as for the other encodings)
+    plan.stage("latin1: every byte alone / before / after {41,80,FF}, bare and behind a 16-byte prefix, all routes", 256 * 7 * 2,
+               [=](uint64_t i, Ctx &c) {
+                   uint32_t b = (uint32_t)vf::take(i, 256);
+                   unsigned k = (unsigned)vf::take(i, 7), pre = (unsigned)vf::take(i, 2);
+                   static const uint32_t N[3] = {0x41, 0x80, 0xFF};
+                   U32V u = k == 0 ? U32V{b} : k <= 3 ? U32V{b, N[k - 1]} : U32V{N[k - 4], b};
+                   RunOpts ro = all;
+                   if (pre) {
+                       ro.heap_prefix = true;
+                       U32V p = ascii_prefix(16);
+                       p.insert(p.end(), u.begin(), u.end());
+                       u = p;
+                   }
+                   run_case(c, ref::EL1, u, ro);
+               },
+               [](uint64_t i) {
+                   uint32_t b = (uint32_t)vf::take(i, 256);
+                   unsigned k = (unsigned)vf::take(i, 7), pre = (unsigned)vf::take(i, 2);
+                   return strf("Latin-1 byte %02X in context %u%s", b, k, pre ? " behind a 16-byte prefix" : "");
+               });
     // truncations of well-formed text: every prefix of every encoding of every sequence in B^<=3
     {
         unsigned L = reduced ? 2 : T ? 4 : 3;
